@@ -19,9 +19,14 @@ const (
 	SimQuarantine             // host allocator; freed blocks are poisoned, never reused, and must stay poisoned
 	SimScatter                // host allocator; tape-chosen gaps and reuse choices, dirty fresh memory
 	NModes
+	// SimBenign is not a fault mode: the host allocator places blocks itself
+	// (addresses differ from the real allocator's) but never reuses, poisons or
+	// dirties anything. A program whose output differs between Plain and SimBenign
+	// prints or branches on addresses; its output says nothing under the sim_* modes.
+	SimBenign Mode = NModes + 1
 )
 
-var ModeNames = []string{"plain", "wrap_poison", "sim_lifo", "sim_quarantine", "sim_scatter"}
+var ModeNames = []string{"plain", "wrap_poison", "sim_lifo", "sim_quarantine", "sim_scatter", "", "sim_benign"}
 
 const poison = 0xDD
 
@@ -140,7 +145,9 @@ func (h *Host) PreMalloc(mem []byte, size uint32) uint32 {
 	if len(h.Live) > h.PeakLive {
 		h.PeakLive = len(h.Live)
 	}
-	h.dirty(mem, ptr, sz)
+	if h.Mode != SimBenign {
+		h.dirty(mem, ptr, sz)
+	}
 	return ptr
 }
 
@@ -176,6 +183,9 @@ func (h *Host) PreFree(mem []byte, ptr uint32) uint32 {
 	h.lastFreedPtr = ptr
 	if h.Mode == Plain {
 		return 1
+	}
+	if h.Mode == SimBenign {
+		return 0 // never reused, never touched
 	}
 	if uint64(ptr)+uint64(sz) <= uint64(len(mem)) {
 		p := mem[ptr : ptr+sz]
